@@ -18,6 +18,7 @@ type StoredVisit struct {
 	Doc  int `json:"doc"`            // reduced modulo Count unless Over is set
 	Over int `json:"over,omitempty"` // 1: n=Count, 2: n=Count+1, 3: n huge
 	Stop int `json:"stop,omitempty"` // >0: the visitor returns false at its Stop-th invocation
+	Nest int `json:"nest,omitempty"` // >0: the first callback visits document (Nest-1) mod Count itself (a visitor that looks up another document)
 }
 
 type VisitCase struct {
@@ -54,6 +55,9 @@ func genStoredCase(t *rapid.T, prop string) *Case {
 		}
 		if rapid.IntRange(0, 5).Draw(t, "stop") == 0 {
 			v.Stop = rapid.IntRange(1, 3).Draw(t, "stopat")
+		}
+		if rapid.IntRange(0, 5).Draw(t, "nest") == 0 {
+			v.Nest = 1 + rapid.SampledFrom([]int{0, 1, 127, 128, 129, 200, 255, 256, 300, 2000}).Draw(t, "nestdoc")
 		}
 		vc.Visits = append(vc.Visits, v)
 	}
@@ -163,12 +167,29 @@ func runStoredCase(c *Case, env *Env) *Result {
 		calls := 0
 		stoppedButCalled := false
 		stopped := false
+		nested := false
+		nestFail := ""
 		pi := Guard(func() {
 			err = ws.Seg.VisitStoredFields(n, func(field string, value []byte) bool {
 				if stopped {
 					stoppedButCalled = true
 				}
 				calls++
+				if calls == 1 && v.Nest > 0 && cnt > 0 {
+					// the visitor looks at another document before it reads its own value
+					nn := uint64((v.Nest - 1) % cnt)
+					var inner []model.FV
+					nerr := ws.Seg.VisitStoredFields(nn, func(f2 string, v2 []byte) bool {
+						inner = append(inner, model.FV{F: f2, V: append(model.Bytes{}, v2...)})
+						return true
+					})
+					if nerr != nil {
+						nestFail = fmt.Sprintf("nested VisitStoredFields(%d): %v", nn, nerr)
+					} else if d := model.DiffFV(inner, exp.Stored[nn]); d != "" {
+						nestFail = fmt.Sprintf("nested VisitStoredFields(%d): %s", nn, d)
+					}
+					nested = true
+				}
 				got = append(got, model.FV{F: field, V: append(model.Bytes{}, value...)})
 				if stopAt > 0 && calls >= stopAt {
 					stopped = true
@@ -184,6 +205,14 @@ func runStoredCase(c *Case, env *Env) *Result {
 		}
 		if err != nil {
 			res.Fail = &Fail{Prop: "C06", Oracle: "stored", Kind: "error", Site: "VisitStoredFields", Detail: fmt.Sprintf("%s: %v", where, err)}
+			return res
+		}
+		if nested {
+			res.probe("nested-visit-from-visitor")
+			res.NonTrivial = true
+		}
+		if nestFail != "" {
+			res.Fail = mismatch("C06", "stored", "nested-values", where+": "+nestFail)
 			return res
 		}
 		if stoppedButCalled {
